@@ -211,13 +211,22 @@ theorem beqVL_eq : ∀ a b : List VExpr, beqVL a b = true → a = b
   | _ :: _, [] => by simp [beqVL]
 end
 
+theorem unwrap1_spec (σ : Var → Nat) (e : VExpr) :
+    evalV σ (unwrap1 e) = evalV σ e ∧ freeAxes (unwrap1 e) = freeAxes e := by
+  unfold unwrap1
+  split
+  · simp [evalV, evalVL, natProd, freeAxes, freeAxesL]
+  · exact ⟨rfl, rfl⟩
+
 /-- two sub-expressions of the same shape have the same value under every assignment and the same unknown axes -/
 theorem sameShape_spec {e e' : VExpr} (h : sameShape e e' = true) (σ : Var → Nat) :
     evalV σ e = evalV σ e' ∧ freeAxes e = freeAxes e' := by
   have := beqV_eq _ _ h
-  obtain ⟨a1, a2⟩ := eraseValued_spec σ e
-  obtain ⟨b1, b2⟩ := eraseValued_spec σ e'
-  rw [← a1, ← a2, ← b1, ← b2, this]; exact ⟨rfl, rfl⟩
+  obtain ⟨a1, a2⟩ := eraseValued_spec σ (unwrap1 e)
+  obtain ⟨b1, b2⟩ := eraseValued_spec σ (unwrap1 e')
+  obtain ⟨c1, c2⟩ := unwrap1_spec σ e
+  obtain ⟨d1, d2⟩ := unwrap1_spec σ e'
+  rw [← c1, ← c2, ← d1, ← d2, ← a1, ← a2, ← b1, ← b2, this]; exact ⟨rfl, rfl⟩
 
 mutual
 theorem valueOf_some_free : ∀ (e : VExpr) (v : Nat), valueOf e = some v → freeAxes e = []
